@@ -383,6 +383,43 @@ example : run wWorld wReqBadJwt wChain = .failure (.chain [.kind .authentication
 /-- with the opt-in, the same rejected JWT lets the request fall through to `anonymous` -/
 example : run wWorld wReqBadJwt wChainOptIn = .subject "anonymous" := by decide
 
+/-! ### found, verified, and rejected while the claims are decoded
+
+A JWT signed by its issuer whose `exp` / `nbf` / `iat` lies outside of the years 1..9999 (an expiry in microseconds,
+`1e300`), or an introspection response carrying such a date or an `aud` / `scope` of a wrong JSON type: the claim types
+of `internal/rules/mechanisms/oauth2` (`NumericDate`, `Audience`, `Scopes`) report a *configuration* error, which the
+`jwt` authenticator attaches to "failed to verify JWT signature" (`JwtSite.signature`) and the introspection
+authenticator to "failed to unmarshal received introspection response" (`IntroSite.unmarshal`). -/
+
+/-- the world of such credentials -/
+def wWorldClaims : World :=
+  { headerAlg := [("head.body.sign", .ES256)],
+    jwt := [(("jwt", "head.body.sign"), .fail .signature (.chain [.kind .configuration]))],
+    intro := [(("intro", "opaque"), .fail .unmarshal (.chain [.kind .configuration, .foreign]))] }
+
+def wChainIntro : List Authn :=
+  [ { id := "intro", typ := .introspection defaultSources }, { id := "anon", typ := .anonymous "" } ]
+
+/-- they are within the hypotheses of the theorems, so `c04_rejected_is_final` applies: the rejection is no argument
+error, it is final, `anonymous` is not consulted -/
+example : wWorldClaims.wf = true ∧
+    run wWorldClaims wReqBadJwt [wChain[0], wChain[2]] =
+      .failure (.chain [.kind .authentication, .chain [.kind .configuration]]) ∧
+    runConsulted wWorldClaims wReqBadJwt [wChain[0], wChain[2]] = 1 ∧
+    run wWorldClaims wReqOpaque wChainIntro =
+      .failure (.chain [.kind .internal, .chain [.kind .configuration, .foreign]]) ∧
+    runConsulted wWorldClaims wReqOpaque wChainIntro = 1 := by decide
+
+/-- The hypothesis `World.wf` is what carries this: were the claim decoder to report an *argument* error for a date
+out of range (`errors.Is` walks the whole chain), the world would be outside the hypotheses and the very same loop
+would hand the rejected token over to `anonymous` — `Gen.argumentMentionsElsewhere = 0` excludes it for today's
+source, the correspondence run for the running code. -/
+def wWorldArgumentCause : World :=
+  { wWorldClaims with jwt := [(("jwt", "head.body.sign"), .fail .signature (.chain [.kind .argument]))] }
+
+example : wWorldArgumentCause.wf = false ∧
+    run wWorldArgumentCause wReqBadJwt [wChain[0], wChain[2]] = .subject "anonymous" := by decide
+
 /-- **The loop of the composite is the reference semantics of the specification**: the answer is that of the first
 authenticator that succeeds or finally rejects, the failure of the last one if none does, and exactly the
 authenticators up to that one are consulted. -/
@@ -402,6 +439,15 @@ theorem c04_model_answer_accepted (w : World) (r : Req) (chain : List Authn) (hw
 example : judge wWorld wReqBadJwt wChain
     [("jwt", .err [.authentication]), ("basic", .err [.argument, .authentication]), ("anon", .ok "anonymous")]
     (some (.ok "anonymous")) = false := by decide
+
+/-- … likewise after a token whose claims cannot be decoded, whatever the error looks like … -/
+example : judge wWorldClaims wReqBadJwt [wChain[0], wChain[2]]
+    [("jwt", .err [.argument, .authentication]), ("anon", .ok "anonymous")] (some (.ok "anonymous")) = false ∧
+    judge wWorldClaims wReqOpaque wChainIntro
+    [("intro", .err [.argument, .internal]), ("anon", .ok "anonymous")] (some (.ok "anonymous")) = false ∧
+    judge wWorldClaims wReqBadJwt [wChain[0], wChain[2]]
+    [("jwt", .err [.authentication, .configuration])] (some (.err [.authentication, .configuration])) = true := by
+  decide
 
 /-- … and one that stops at the JWT authenticator although no token was sent -/
 example : judge wWorld wReqNone wChain [("jwt", .err [.argument, .authentication])]
